@@ -73,7 +73,10 @@ def write_cfg(path, *, init="Init", next_="Next", spec=None, constants=None,
     if constants:
         lines.append("CONSTANTS")
         for k, v in constants.items():
-            lines.append("  %s = %s" % (k, tla_value(v)))
+            if isinstance(v, str) and v.startswith("<-"):
+                lines.append("  %s <- %s" % (k, v[2:].strip()))
+            else:
+                lines.append("  %s = %s" % (k, tla_value(v)))
     for i in invariants:
         lines.append("INVARIANT %s" % i)
     for p in properties:
